@@ -65,8 +65,12 @@ class Script:
         self.t0 = 0
         self.dt0 = 1
         self.funcs = []
+        self.func_alias = {}
         self.types = {}
         self.shape_sig = []
+
+    def func_impl(self, fn):
+        return FUNCS[self.func_alias.get(fn, fn)][1]
 
     def phase(self, name):
         for p in self.phases:
@@ -137,9 +141,15 @@ ERRORS = {"ErrA": ErrA, "ErrB": ErrB, "ValueError": ValueError}
 
 
 class ScriptGen:
-    def __init__(self, tape, max_ops=8, max_phases=3, max_depth=2, persistent_p=True):
+    def __init__(self, tape, max_ops=8, max_phases=3, max_depth=2, persistent_p=True,
+                 unique_sites=False, force=()):
         self.tape = tape
         self.F = Features(tape)
+        for name in force:
+            setattr(self.F, name, True)
+        self.unique_sites = unique_sites
+        self.func_alias = {}
+        self.site_n = 0
         self.max_ops = max_ops
         self.max_phases = max_phases
         self.max_depth = max_depth
@@ -152,6 +162,16 @@ class ScriptGen:
         self.shape = []
 
     # ---------- helpers
+    def ucall(self, fn, args, kwargs=()):
+        """user-function call; with unique_sites every call site gets its own name."""
+        if self.unique_sites:
+            name = "%s_s%03d" % (fn, self.site_n)
+            self.site_n += 1
+            self.func_alias[name] = fn
+            fn = name
+        self.used_funcs.add(fn)
+        return Call(fn, args, kwargs)
+
     def pick(self, seq, label=""):
         return seq[self.tape.draw(len(seq), label)]
 
@@ -307,12 +327,11 @@ class ScriptGen:
         if self.arrs(D) and F.arrays:
             opts.append("<func>total")
         fn = self.pick(opts, "ufn")
-        self.used_funcs.add(fn)
         if fn == "<func>total":
-            return Call(fn, [Var(self.pick(self.arrs(D), "ta"))])
+            return self.ucall(fn, [Var(self.pick(self.arrs(D), "ta"))])
         a = self.g_num(D, depth, counters)
         if fn == "<func>g":
-            return Call(fn, [a, self.g_num(D, depth, counters)])
+            return self.ucall(fn, [a, self.g_num(D, depth, counters)])
         if fn == "<func>kw":
             kws = []
             if t.chance(0.6, "kwy"):
@@ -321,8 +340,8 @@ class ScriptGen:
                 kws.append(("z", self.g_num(D, 0, counters)))
             if t.chance(0.3, "kwswap"):
                 kws.reverse()
-            return Call(fn, [a], kws)
-        return Call(fn, [a])
+            return self.ucall(fn, [a], kws)
+        return self.ucall(fn, [a])
 
     def g_bool(self, D, depth, counters=(), allow_calls=True):
         t = self.tape
@@ -350,8 +369,7 @@ class ScriptGen:
         if k == 4:
             return Const(bool(t.draw(2, "bc")))
         if k == 5:
-            self.used_funcs.add("<func>isbig")
-            return Call("<func>isbig", [self.g_num(D, depth - 1, counters)])
+            return self.ucall("<func>isbig", [self.g_num(D, depth - 1, counters)])
         return Call("<builtin>isnan", [self.g_num(D, 0, counters, allow_calls)])
 
     def g_arr(self, D, n, depth):
@@ -370,8 +388,7 @@ class ScriptGen:
             return Bin("*", c, self._arr_leaf_or(D, n, depth - 1))
         if k == 4:
             fn = self.pick(["<func>h", "<func>rev"], "afn")
-            self.used_funcs.add(fn)
-            return Call(fn, [self._arr_leaf_or(D, n, depth - 1)])
+            return self.ucall(fn, [self._arr_leaf_or(D, n, depth - 1)])
         if k == 5:
             return Call("<builtin>elementwise_abs", [self._arr_leaf_or(D, n, depth - 1)])
         if k == 6:
@@ -585,18 +602,16 @@ class ScriptGen:
                 D.add(tgt)
                 return ("call", (tgt,), e, self.mode())
             if kind == 1:
-                self.used_funcs.add("<func>pair")
                 a = self.new_temp(D, "float")
                 b = self.new_temp(D, "float")
                 if a is None or b is None or a == b:
                     return None
-                e = Call("<func>pair", [self.g_num(D, 1)])
+                e = self.ucall("<func>pair", [self.g_num(D, 1)])
                 D.add(a)
                 D.add(b)
                 return ("call", (a, b), e, self.mode())
             if kind == 2:
-                self.used_funcs.add("<func>noop")
-                return ("call", (), Call("<func>noop", [self.g_num(D, 1)]), self.mode())
+                return ("call", (), self.ucall("<func>noop", [self.g_num(D, 1)]), self.mode())
             tgt = self.new_temp(D, "float")
             if tgt is None:
                 return None
@@ -755,6 +770,11 @@ class ScriptGen:
                 nxt = names[t.draw(len(names), "next")] if t.chance(0.5, "nextrand") else names[(pi + 1) % len(names)]
                 n_ops = 1 + t.draw(self.max_ops, "nops")
                 ops += self.gen_block(D, self.max_depth, n_ops, top=True)
+                if pi == 0 and self.unique_sites and not self.used_funcs:
+                    # fault-injection workloads need at least one user-function call
+                    tgt = sorted(n for n in self.types if n.startswith("<state>") and self.types[n] == "float")[0]
+                    ops.insert(t.draw(len(ops) + 1, "callpos"),
+                               ("assign", tgt, None, Bin("+", self.ucall("<func>f", [Var(tgt)]), Const(2)), [], "o"))
                 if t.chance(0.8, "advance_t"):
                     ops.append(("assign", "<t>", None, Bin("+", Var("<t>"), Var("<dt>")), [], self.mode()))
                 if pi == 0 and not any(op[0] == "yield" for op in ops) and t.chance(0.5, "finalyield"):
@@ -763,6 +783,7 @@ class ScriptGen:
                 sc.phases.append(PhaseS(name, nxt, ops))
         sc.types = dict(self.types)
         sc.funcs = sorted(self.used_funcs)
+        sc.func_alias = dict(self.func_alias)
         sc.shape_sig = list(self.shape)
         sc.features = [n for n in Features.NAMES if getattr(F, n)]
         return sc
@@ -780,6 +801,7 @@ class Applied:
         self.stack = []           # enclosing (flag variable, negated) while applying
         self.guards = {}          # (phase, statement index) -> expected [(flag, negated), ...]
         self.flags = {}           # phase -> list of flag variable names created by if_
+        self.op_stmts = {}        # id(op) -> (phase, [statement indices])
 
     def nm(self, name):
         if name.startswith("$"):
@@ -800,6 +822,7 @@ def apply_ops(cb, ops, ap, phase_name):
             _apply_one(cb, op, ap, phase_name)
             for idx in range(n0, len(cb.statements)):
                 ap.guards[(phase_name, idx)] = list(ap.stack)
+            ap.op_stmts[id(op)] = (phase_name, list(range(n0, len(cb.statements))))
             continue
         _, form, then, else_ = op
         if form[0] == "1":
@@ -808,6 +831,7 @@ def apply_ops(cb, ops, ap, phase_name):
             cm = cb.if_(_rend(form[1], ap, form[4]), form[2], _rend(form[3], ap, form[5]))
         with cm:
             ap.guards[(phase_name, n0)] = list(ap.stack)
+            ap.op_stmts[id(op)] = (phase_name, [n0])
             flag = cb.statements[n0].assignee if len(cb.statements) > n0 else None
             ap.flags.setdefault(phase_name, []).append(flag)
             ap.stack.append((flag, False))
@@ -883,6 +907,6 @@ def make_function_map(sc, table=None):
     (a FuncTable that counts calls and injects faults)."""
     out = {}
     for fn in sc.funcs:
-        impl = FUNCS[fn][1]
+        impl = sc.func_impl(fn)
         out[fn] = table.wrap(fn, impl) if table is not None else impl
     return out
